@@ -9,7 +9,6 @@ From Coq Require Import NArith ZArith List Bool Lia.
 From Verif Require Import X86Validate.ValidateModel X86Validate.ValidateProofs Builder.BuilderModel Builder.BuilderProofs.
 Import ListNotations.
 
-Module V := Verif.X86Validate.ValidateModel.
 
 (* ------------------------------------------------------------------ facts about C13's validate *)
 Local Open Scope N_scope.
@@ -22,8 +21,8 @@ Proof.
   destruct n; [contradiction|]. destruct p; reflexivity.
 Qed.
 
-Lemma test_clear_bit0 : forall o c, N.testbit c 0 = false -> V.test (N.ldiff o 1) c = V.test o c.
-Proof. intros. unfold V.test. now rewrite land_clear_bit0. Qed.
+Lemma test_clear_bit0 : forall o c, N.testbit c 0 = false -> ValidateModel.test (N.ldiff o 1) c = ValidateModel.test o c.
+Proof. intros. unfold ValidateModel.test. now rewrite land_clear_bit0. Qed.
 
 Definition with_options (i : vinst) (o : N) : vinst :=
   {| vi_id := vi_id i; vi_options := o; vi_extra_type := vi_extra_type i; vi_extra_id := vi_extra_id i |}.
@@ -42,7 +41,7 @@ Proof.
 Qed.
 
 (* what is left when the translation loop stops: the operands from the first empty one on *)
-Fixpoint from_first_none (ops : list V.operand) : list V.operand :=
+Fixpoint from_first_none (ops : list ValidateModel.operand) : list ValidateModel.operand :=
   match ops with [] => [] | ONone :: _ => ops | _ :: r => from_first_none r end.
 
 Lemma xlat_all_rest : forall T x64 virt avx ops st st' rest,
@@ -55,18 +54,18 @@ Proof.
 Qed.
 
 Theorem accepted_has_no_gap : forall T zq x64 virt inst ops,
-  validate T zq x64 virt inst ops = E_Ok -> forallb V.is_none (from_first_none ops) = true.
+  validate T zq x64 virt inst ops = E_Ok -> forallb ValidateModel.is_none (from_first_none ops) = true.
 Proof.
   intros T zq x64 virt inst ops H. destruct (validate_ok_inv T zq x64 virt inst ops H) as (_ & iflags & avx & sidx & scnt & st & rest & _ & XL & GAP & _).
   apply xlat_all_rest in XL. now rewrite <- XL.
 Qed.
 
-Lemma no_gap_nth : forall ops, forallb V.is_none (from_first_none ops) = true ->
+Lemma no_gap_nth : forall ops, forallb ValidateModel.is_none (from_first_none ops) = true ->
   forall i j, (i < j)%nat -> nth i ops ONone = ONone -> nth j ops ONone = ONone.
 Proof.
   induction ops as [|op ops IH]; intros H i j Hij Hi; [destruct j; reflexivity|].
   destruct j as [|j]; [lia|]. cbn [nth].
-  assert (TAIL : forall l k, forallb V.is_none l = true -> nth k l ONone = ONone).
+  assert (TAIL : forall l k, forallb ValidateModel.is_none l = true -> nth k l ONone = ONone).
   { induction l as [|x l IHl]; intros k Hl; [destruct k; reflexivity|]. cbn in Hl. apply andb_prop in Hl. destruct Hl as [Hx Hl].
     destruct k; [destruct x; try discriminate; reflexivity|apply IHl; exact Hl]. }
   destruct i as [|i].
@@ -82,9 +81,12 @@ Local Close Scope N_scope.
 Section Bridge.
 Variable T : vtables.
 Variables zq x64 : bool.
-Variable dec : BuilderModel.operand -> V.operand.            (* how the validator reads an operand (x86 operand signature decoding) *)
+Variable dec : BuilderModel.operand -> ValidateModel.operand.            (* how the validator reads an operand (x86 operand signature decoding) *)
 Variable xtype : Z -> N.                                     (* register type of the extra-register signature *)
-Hypothesis dec_none : forall o, dec o = ONone <-> BuilderModel.is_none o = true.     (* empty = empty signature, nothing else *)
+Hypothesis dec_none_l : forall o, BuilderModel.is_none o = true -> dec o = ONone.     (* an empty signature is read as "no operand" *)
+(* the converse holds for an operand whose signature is "clean": the validator looks at the operand TYPE field only, so a non-empty
+   signature with type 0 is also read as "no operand" *)
+Definition clean (o : BuilderModel.operand) : Prop := dec o = ONone -> BuilderModel.is_none o = true.
 
 Definition vinst_of (id opts exsig exid : Z) : vinst :=
   {| vi_id := Z.to_N id; vi_options := Z.to_N opts; vi_extra_type := xtype exsig; vi_extra_id := Z.to_N exid |}.
@@ -101,8 +103,8 @@ Qed.
 
 Lemma dec_canon : forall o0 o1 o2 o3 o4 o5, map dec (canon_ops o0 o1 o2 o3 o4 o5) = map dec [o0; o1; o2; o3; o4; o5].
 Proof.
-  intros. assert (DN : dec op_none = ONone) by (apply dec_none; reflexivity).
-  assert (D : forall o, BuilderModel.is_none o = true -> dec o = ONone) by (intros; now apply dec_none).
+  intros. assert (DN : dec op_none = ONone) by (apply dec_none_l; reflexivity).
+  assert (D : forall o, BuilderModel.is_none o = true -> dec o = ONone) by (intros; now apply dec_none_l).
   unfold canon_ops, op_count.
   destruct (BuilderModel.is_none o5) eqn:E5; [|reflexivity]. destruct (BuilderModel.is_none o4) eqn:E4; [|cbn; now rewrite DN, (D o5)].
   destruct (BuilderModel.is_none o3) eqn:E3; [|cbn; now rewrite DN, (D o5), (D o4)].
@@ -126,23 +128,28 @@ Qed.
 
 (* an accepted call has no operand after an empty slot ... *)
 Theorem accepted_no_operand_after_hole : forall virt id opts es ei o0 o1 o2 o3 o4 o5,
+  Forall clean [o0; o1; o2; o3; o4; o5] ->
   verdict virt id opts es ei [o0; o1; o2; o3; o4; o5] = E_Ok ->
   forall i j, (i < j)%nat -> BuilderModel.is_none (nth i [o0; o1; o2; o3; o4; o5] op_none) = true ->
               BuilderModel.is_none (nth j [o0; o1; o2; o3; o4; o5] op_none) = true.
 Proof.
-  intros virt id opts es ei o0 o1 o2 o3 o4 o5 H i j Hij Hi. unfold verdict in H. apply accepted_has_no_gap in H.
-  assert (DN : dec op_none = ONone) by (apply dec_none; reflexivity).
-  apply dec_none. rewrite <- (map_nth dec). rewrite DN. eapply no_gap_nth; [exact H|exact Hij|].
-  rewrite <- DN. rewrite (map_nth dec). rewrite DN. apply dec_none. exact Hi.
+  intros virt id opts es ei o0 o1 o2 o3 o4 o5 HC H i j Hij Hi. unfold verdict in H. apply accepted_has_no_gap in H.
+  assert (DN : dec op_none = ONone) by (apply dec_none_l; reflexivity).
+  assert (CL : clean (nth j [o0; o1; o2; o3; o4; o5] op_none)).
+  { destruct (le_lt_dec (length [o0; o1; o2; o3; o4; o5]) j) as [L|L]; [rewrite nth_overflow by exact L; intros _; reflexivity|].
+    eapply Forall_forall; [exact HC|apply nth_In; exact L]. }
+  apply CL. rewrite <- (map_nth dec). rewrite DN. eapply no_gap_nth; [exact H|exact Hij|].
+  rewrite <- DN. rewrite (map_nth dec). rewrite DN. apply dec_none_l. exact Hi.
 Qed.
 
 (* ... so for accepted calls the unrepaired operand count is the repaired one: under strict validation the node never lost an operand *)
 Theorem accepted_counts_agree : forall virt id opts es ei o0 o1 o2 o3 o4 o5,
+  Forall clean [o0; o1; o2; o3; o4; o5] ->
   verdict virt id opts es ei [o0; o1; o2; o3; o4; o5] = E_Ok ->
   op_count_legacy o0 o1 o2 o3 o4 o5 = op_count o0 o1 o2 o3 o4 o5.
 Proof.
-  intros virt id opts es ei o0 o1 o2 o3 o4 o5 H.
-  pose proof (accepted_no_operand_after_hole virt id opts es ei o0 o1 o2 o3 o4 o5 H) as G.
+  intros virt id opts es ei o0 o1 o2 o3 o4 o5 HC H.
+  pose proof (accepted_no_operand_after_hole virt id opts es ei o0 o1 o2 o3 o4 o5 HC H) as G.
   pose proof (G 3%nat 4%nat ltac:(lia)) as G34. pose proof (G 3%nat 5%nat ltac:(lia)) as G35. pose proof (G 4%nat 5%nat ltac:(lia)) as G45.
   cbn [nth] in G34, G35, G45. unfold op_count_legacy, op_count.
   destruct (BuilderModel.is_none o3) eqn:E3, (BuilderModel.is_none o4) eqn:E4, (BuilderModel.is_none o5) eqn:E5; cbn [negb];
@@ -150,3 +157,24 @@ Proof.
 Qed.
 
 End Bridge.
+
+(* ------------------------------------------------------------------ non-vacuity (a one-instruction table without signatures; operands are
+   read as "empty" or "an immediate"): an accepted call, the same call with the reserved bit, and a refused call with an operand after a hole *)
+Definition T0 : vtables :=
+  {| vt_count := 1; vt_inst := [(0, 0, 0, 0)%N]; vt_isig := []; vt_osig := []; vt_rt_opflags := [];
+     vt_vd86 := {| vd_reg_mask := []; vd_base_regs := 0; vd_index_regs := 0 |};
+     vt_vd64 := {| vd_reg_mask := []; vd_base_regs := 0; vd_index_regs := 0 |} |}.
+Definition dec0 (o : BuilderModel.operand) : ValidateModel.operand := if BuilderModel.is_none o then ONone else OImm 0.
+
+Lemma dec0_none : forall o, BuilderModel.is_none o = true -> dec0 o = ONone.
+Proof. intros o H. unfold dec0. now rewrite H. Qed.
+
+Example verdict_accepts :
+  verdict T0 false true dec0 (fun _ => 0%N) false 0 0 0 0 [mkOp 4 0 7 0; op_none; op_none; op_none; op_none; op_none] = E_Ok /\
+  verdict T0 false true dec0 (fun _ => 0%N) false 0 1 0 0 [mkOp 4 0 7 0; op_none; op_none; op_none; op_none; op_none] = E_Ok.
+Proof. split; vm_compute; reflexivity. Qed.
+
+Example verdict_refuses_hole :
+  verdict T0 false true dec0 (fun _ => 0%N) false 0 0 0 0 [mkOp 4 0 7 0; op_none; op_none; op_none; mkOp 4 0 9 0; op_none] = E_InvalidInstruction /\
+  op_count_legacy (mkOp 4 0 7 0) op_none op_none op_none (mkOp 4 0 9 0) op_none <> op_count (mkOp 4 0 7 0) op_none op_none op_none (mkOp 4 0 9 0) op_none.
+Proof. split; [vm_compute; reflexivity|vm_compute; discriminate]. Qed.
